@@ -516,6 +516,15 @@ def _proxy_tables(mod: ast.Module) -> str:
     tail = [_norm(s) for s in get.body[get.body.index(tr) + 1:]]
     if tail != ["if self.bind_f is not None:\n    return self.bind_f(instance, obj)", "return getattr(obj, self.name)"]:
         raise px.Unsupported("_ProxyLookup.__get__: bound branch changed")
+    # _ProxyIOp: the bound in-place operator calls f(obj, other), drops the result and returns <what>
+    iinit = _method(px.find_class(mod, "_ProxyIOp"), "__init__")
+    iops = [n for n in ast.walk(iinit) if isinstance(n, ast.FunctionDef) and n.name == "i_op"]
+    if len(iops) != 1 or [a.arg for a in iops[0].args.args] != ["self", "other"]:
+        raise px.Unsupported("_ProxyIOp.__init__: i_op(self, other) not found")
+    ib = [_norm(x) for x in _strip_doc(iops[0].body)]
+    if len(ib) != 2 or ib[0] != "f(self, other)" or ib[1] not in ("return instance", "return self"):
+        raise px.Unsupported(f"_ProxyIOp i_op body {ib} not in the T2 subset (f(self, other); return instance)")
+    out.append(f"Definition iop_result : iop_ret := {'RetInstance' if ib[1] == 'return instance' else 'RetObject'}.")
     for cname in ("_ProxyLookup", "_ProxyIOp"):
         init = _method(px.find_class(mod, cname), "__init__")
         for n in ast.walk(init):
@@ -653,7 +662,8 @@ def _statement_pins(mod: ast.Module) -> None:
     parts.append(px.skeleton(_abstract(px.find_class(mod, "LocalManager"), set(), {"__repr__"})))
     parts.append(px.skeleton(_abstract(px.find_class(mod, "_ProxyLookup"), set(), {"__repr__"}),
                              {"except RuntimeError:": "except <LOOKUP_CATCH>:"}))
-    parts.append(px.skeleton(_abstract(px.find_class(mod, "_ProxyIOp"), set(), set())))
+    parts.append(px.skeleton(_abstract(px.find_class(mod, "_ProxyIOp"), set(), set()),
+                             {"return instance": "return <IOP_RESULT>", "return self": "return <IOP_RESULT>"}))
     parts.append(px.skeleton(_plain(px.find_def(mod, "_l_to_r_op"))))
     parts.append(px.skeleton(_plain(px.find_def(mod, "_identity"))))
     lp = px.find_class(mod, "LocalProxy")
@@ -744,10 +754,67 @@ _TYPE_ID = {"NoneType": 9000, "bool": 9002, "int": 9004, "str": 9006, "tuple": 9
 _REPR_ID = {"None": 9000, "False": 9002, "0": 9004, "''": 9006, "()": 9008, repr(SHARED): 9011}
 
 
+IOP_NAMES = ["iadd", "isub", "imul", "imatmul", "itruediv", "ifloordiv", "imod", "ipow", "ilshift", "irshift",
+             "iand", "ixor", "ior"]
+
+
+class Acc:
+    """a target with every in-place method: records the operation and returns itself"""
+
+    def __init__(self):
+        self.log = []
+
+
+def _acc_method(nm):
+    def m(self, other):
+        self.log.append((nm, other))
+        return self
+    return m
+
+
+for _nm in IOP_NAMES:
+    setattr(Acc, f"__{_nm}__", _acc_method(_nm))
+
+
+def new_specials() -> dict:
+    """targets of in-place operations through a proxy: 80xx have real in-place methods (mutated in place),
+    81xx have none (the operator computes a new value, which _ProxyIOp drops)"""
+    return {8001: [1], 8003: {1}, 8005: {1: 1}, 8007: Acc(),
+            8101: 5, 8103: "s", 8105: (1,), 8107: frozenset({1}), 8109: 2.5}
+
+
+_num = {k: 2 for k in ("iadd", "isub", "imul", "itruediv", "ifloordiv", "imod", "ipow", "ilshift", "irshift", "iand", "ixor", "ior")}
+OPERAND = {}                      # (target id, operator name) -> right operand; absent = not applicable to that target
+for _k, _v in _num.items():
+    OPERAND[(8101, _k)] = _v
+for _k in ("iadd", "isub", "imul", "itruediv", "ifloordiv", "imod", "ipow"):
+    OPERAND[(8109, _k)] = 2
+OPERAND.update({(8001, "iadd"): [2], (8001, "imul"): 2, (8003, "ior"): {2}, (8003, "iand"): {1, 3}, (8003, "isub"): {1}, (8003, "ixor"): {3},
+                (8005, "ior"): {2: 2}, (8103, "iadd"): "x", (8103, "imul"): 2, (8105, "iadd"): (2,), (8105, "imul"): 2,
+                (8107, "ior"): frozenset({2}), (8107, "iand"): frozenset({1, 3}), (8107, "isub"): frozenset({1}),
+                (8107, "ixor"): frozenset({3})})
+for _nm in IOP_NAMES:
+    OPERAND[(8007, _nm)] = 3
+_SPECIALS: dict = {}
+
+
+def show(o) -> str:
+    if isinstance(o, Acc):
+        return repr(o.log).replace(" ", "")
+    if isinstance(o, (set, frozenset)):
+        return type(o).__name__ + repr(sorted(o)).replace(" ", "")
+    if isinstance(o, dict):
+        return repr(sorted(o.items())).replace(" ", "")
+    return repr(o).replace(" ", "")
+
+
 def vid(o) -> int:
     """identity of a stored value as the model names it"""
     if isinstance(o, Box):
         return o.n
+    for k, v in _SPECIALS.items():
+        if o is v:
+            return k
     for k, v in SINGLETONS.items():
         if o is v:
             return k
@@ -822,6 +889,8 @@ class Env:
             # bare ContextVars proxied by LocalProxy(var[, name]): number 0 has no default, number 1 has one
             self.CV = [contextvars.ContextVar("c18.cv0"), contextvars.ContextVar("c18.cv1", default=self.default_box)]
         self.default_box.tag = self.default_box.twin.tag = None
+        _SPECIALS.clear()
+        _SPECIALS.update(new_specials())
         self.tokens = {}
         self.iters = []
         self.prox = []
@@ -831,6 +900,8 @@ class Env:
     def box(self, n):
         if n in SINGLETONS:
             return SINGLETONS[n]
+        if n in _SPECIALS:
+            return _SPECIALS[n]
         b = self.boxes.get(n)
         if b is None:
             b = self.boxes[n] = Box(n)
@@ -964,7 +1035,9 @@ DEFAULT_ID = 77                  # the object that is the `default=` of ContextV
 
 
 def uses_contextvars(steps) -> bool:
-    return any(op[0] in CV_KINDS or (op[0] == "mkp" and op[1] == "v") for _, op in steps)
+    """schedules the extracted model cannot read: bare ContextVar operations, in-place operators / content observations"""
+    return any(op[0] in CV_KINDS or (op[0] == "mkp" and op[1] == "v") or (op[0] == "px" and (op[2] == "val" or op[2][0] == "i"))
+               for _, op in steps)
 
 
 def apply(env: Env, op, c: int = 0) -> str:
@@ -1050,6 +1123,27 @@ def apply(env: Env, op, c: int = 0) -> str:
             if a[0] == "e":
                 names = entry_names()
                 return _lookup_entry(env, p, names[int(a[1:])]) if int(a[1:]) < len(names) else "invalid"
+            if a == "val":
+                try:
+                    o = p._get_current_object()
+                except RuntimeError:
+                    return "rterr"
+                return f"val:{vid(o)}:{show(o) if 8000 <= vid(o) < 9000 else '-'}"
+            if a[0] == "i":
+                # name = proxy; name <op>= operand   (the statement calls type(name).__i<op>__(name, operand) and rebinds name)
+                import operator
+                nm = entry_names()[int(a[1:])].strip("_")
+                try:
+                    tid = vid(p._get_current_object())
+                except RuntimeError:
+                    tid = None
+                if tid is not None and (tid, nm) not in OPERAND:
+                    return "na"
+                try:
+                    r = getattr(operator, nm)(p, OPERAND[(tid, nm)] if tid is not None else 1)
+                except RuntimeError:
+                    return "rterr"
+                return "proxy" if r is p else ("value:" + show(r))[:40]
             if a == "msg":
                 try:
                     return f"v{vid(p._get_current_object())}"
@@ -1294,6 +1388,7 @@ def oracle(steps) -> list[str]:
     iters = []
     outs = []
 
+    objs = new_specials()              # the objects themselves: shared by reference between every context that holds them
     undo = {}                          # (ctx, var) -> previous bindings, for ContextVar.reset(token)
     MISSING = object()
 
@@ -1413,6 +1508,19 @@ def oracle(steps) -> list[str]:
                 # the proxied object lacks the attribute a NAMED proxy follows: its own AttributeError comes through; only
                 # repr() differs (CPython treats an AttributeError from the __repr__ descriptor as "no __repr__": object's repr)
                 outs.append("repr:objectdefault" if a == "repr" else "exn:AttributeError")
+            elif a == "val":
+                outs.append("rterr" if b is None else f"val:{b}:{show(objs[b]) if b in objs else '-'}")
+            elif a[0] == "i":
+                import operator
+                nm = entry_names()[int(a[1:])].strip("_")
+                if b is None:
+                    outs.append("rterr")            # nothing bound here: still RuntimeError, never a usable value
+                elif (b, nm) not in OPERAND:
+                    outs.append("na")
+                else:
+                    if b < 8100:                    # a real in-place method: THIS object is mutated, in every context holding it
+                        objs[b] = getattr(operator, nm)(objs[b], OPERAND[(b, nm)])
+                    outs.append("proxy")            # the name stays the late-bound proxy; an immutable target's binding is unchanged
             elif a[0] == "e":
                 names = entry_names()
                 if int(a[1:]) >= len(names):
@@ -1479,6 +1587,22 @@ def enumerate_muts(alphabet, length: int, maxctx: int = 3):
                     yield from rec(prefix, nctx)
                 prefix.pop()
     yield from rec([], 1)
+
+
+def inplace_schedule(e: int, tid: int):
+    other = 8101 if tid != 8101 else 8103
+    st = [(0, ("mkp", "l", 0, 0, 0)), (0, ("mkp", "s", 0, 0, 0)), (0, ("mkp", "v", 0, 0, 0)),
+          (0, ("set", 0, 0, tid)), (0, ("push", 0, tid)), (0, ("cvset", 0, tid)),
+          (0, ("spawn",)), (0, ("thread",)), (0, ("thread",)),            # 1: child (same objects), 2: own target, 3: nothing bound
+          (2, ("set", 0, 0, other)), (2, ("push", 0, other)), (2, ("cvset", 0, other))]
+
+    def look():
+        return [(c, ("px", j, "val")) for c in range(4) for j in range(3)]
+    st += look()
+    for c, j in ((1, 0), (3, 0), (2, 0), (0, 1), (3, 1), (1, 2), (2, 2), (3, 2)):
+        st.append((c, ("px", j, f"i{e}")))
+        st += look()
+    return st
 
 
 CVALPHA = ["cvset0", "cvsetN0", "cvreset0", "cvset1", "cvsetN1", "cvreset1", "spawn", "thread"]
@@ -1867,6 +1991,22 @@ def schedules(rng, quick: bool, exh: dict):
     exh["contextvar_proxies"] = dict(alphabet=CVALPHA, max_len=L_cv, contexts=3, schedules=n,
                                      observation="3 proxies (var0, var1 with default, var1.twin) x rotating access in every context "
                                                  "after every step; all runners up to length 3; implementation vs oracle only")
+    # in-place operators through a proxy: every _ProxyIOp entry x every target kind (with real in-place methods: list,
+    # set, dict, a class defining them all; without: int, str, tuple, frozenset, float), through a Local, a LocalStack
+    # and a ContextVar proxy, issued by a child sharing the object, a thread with its own target, a thread with nothing
+    n = 0
+    for e, nm in enumerate(entry_names()):
+        if nm.strip("_") not in IOP_NAMES:
+            continue
+        for tid in sorted(new_specials()):
+            if (tid, nm.strip("_")) not in OPERAND:
+                continue
+            st = inplace_schedule(e, tid)
+            for r in RUNNERS:
+                n += 1
+                yield r, st
+    exh["inplace_through_proxy"] = dict(schedules=n, observation="result is the proxy; content of the target object and what every "
+                                        "context resolves to, after every in-place operation; implementation vs oracle only")
     L_mw = 5 if quick else 6
     n = 0
     for ln in range(1, L_mw + 1):
@@ -1972,7 +2112,9 @@ def run(chk: Check) -> None:
                             f"{exp[d] if d < len(exp) else '?'}")
                     key = "cow:payload-mutated" if d < len(out) and "|payload-mutated" in out[d] else (
                         ("proxy:" if opk == "px" else "leak:") + opk)
-                    if opk == "px" and uses_contextvars(steps):
+                    if opk == "px" and any(op[0] == "px" and op[2][0] == "i" and op[2] != "iter" for _, op in steps[:d + 1]):
+                        key = "proxy:inplace"           # name op= x through a proxy: result / target / other contexts
+                    elif opk == "px" and any(op[0] in CV_KINDS or (op[0] == "mkp" and op[1] == "v") for _, op in steps):
                         key = "proxy:contextvar"
                     if any(op[0] in ("mwdrop", "mwopen") for _, op in steps[:d + 1]) and key.startswith("leak:"):
                         key = "middleware-" + key
